@@ -17,6 +17,10 @@ def gen(rng, n):
 
 
 def project(case, outs):
+    # [[-999]] panic, [[-998]] run killed by the harness time limit, [[-997]] crash: keep the marker,
+    # the monitors reject it (a connection that does not terminate is a violation of C08 itself)
+    if len(outs) == 1 and outs[0] and outs[0][0] < 0:
+        return outs
     return S.project(outs, TAGS)
 
 
